@@ -93,7 +93,11 @@ FrameSet == IF Frames = "routing" THEN RoutingFrames ELSE IF Frames = "routes" T
             ELSE IF Frames = "connected" THEN ConnFrames ELSE AllFrames
 
 Scenario(fs) == [cfg |-> SCfg, pers |-> SPers, mem0 |-> ZeroMemOf(SCfg), frames |-> fs]
-Scenarios == UNION { { Scenario(fs) : fs \in [1 .. k -> FrameSet] } : k \in 1 .. MaxFrames }
+\* Frames = "limited": the pipeline frames on a server with a request size limit at, and one below, the payload length of one of them
+Limits(fs) == UNION { { PayloadLen(Scenario(fs), fs[i]), PayloadLen(Scenario(fs), fs[i]) - 1 } : i \in 1 .. Len(fs) }
+Scenarios == IF Frames = "limited"
+             THEN UNION { UNION { { Scenario(fs) @@ [limit |-> L] : L \in Limits(fs) } : fs \in [1 .. k -> PipeFrames \cup { F("register", S0, C1, "simple", <<>>, NoReq) }] } : k \in 1 .. MaxFrames }
+             ELSE UNION { { Scenario(fs) : fs \in [1 .. k -> FrameSet] } : k \in 1 .. MaxFrames }
 
 \* ---- model: one scenario, every schedule
 VARIABLE sc
